@@ -7,12 +7,12 @@ CHECK = Check(
         # arithmetic only (one multiplication): bit-exact
         Family("K", rtol=None, args=["models=RunoffCoefficient", "prop=C10", "n=150"], label="K-exact"),
         # pow / tanh / exp kernels: Go math vs libm differ by <= 3 ulp
-        Family("K", rtol=1e-9, atol_scale=1e-12, args=["models=GR4J,Simhyd,Surm", "prop=C10", "n=250"],
+        Family("K", rtol=1e-9, atol_scale=1e-12, args=["models=GR4J,Simhyd,Surm,Sacramento", "prop=C10", "n=250"],
                label="K-transcendental"),
     ],
     level="proof",
     trusted=[
-        "hand-written Lean kernel models OW/Kernels/{Coeff,GR4J,Simhyd,Surm}.lean of models/rr/*.go, tied to the "
+        "hand-written Lean kernel models OW/Kernels/{Coeff,GR4J,Simhyd,Surm,Sacramento}.lean of models/rr/*.go, tied to the "
         "code on every run by the K correspondence (real wrapper+kernel through sim.Catalog vs the compiled model; "
         "RunoffCoefficient bit-exact, the others 1e-9 relative + 1e-12 x line scale because Go's math.Pow/Tanh/Exp "
         "and libm differ by <= 3 ulp)",
@@ -30,9 +30,16 @@ CHECK = Check(
         "Simhyd: coefficients in [0,1], thresholds/capacities >= 0, soil moisture store capacity > 0",
         "GR4J: x1, x3, x4 > 0; unit-hydrograph vectors of the lengths chosen by initGR4J; x2 <= 0 for the budget "
         "(a positive exchange coefficient imports groundwater by design); x2 = 0 and PET = 0 for the closed balance",
+        "Sacramento (partial): sarva >= 0, PET >= 0 for the channel stage; uh1..uh5 >= 0 with positive sum",
         "rainfall, PET >= 0; initial state = the model's own or any state within the invariant",
     ],
-    partial=[],
+    partial=[
+        "sacramento_bounds_partial: only the channel stage (runoff, baseflow, e4 >= 0) is proved; the store bounds, "
+        "non-negativity of surfaceRunoff / imperviousRunoff / e1,e2,e3,e5 and the water budget "
+        "(sacramento_invariant, sacramento_no_water_created, stated in full in OW/Props/C10.lean) need an invariant "
+        "through the drainage-and-percolation loop (15 coupled updates x ninc passes x 2 per day) and are covered "
+        "by the implementation oracle only",
+    ],
 )
 
 META = dict(
